@@ -282,6 +282,9 @@ def write_ndjson(path, recs):
             f.write(json.dumps(r, separators=(",", ":")) + "\n")
 
 
+PART = 120000
+
+
 def tlc_validate_records(module, cfg, recfile, nrecs, chunk=500, workers=None, timeout=1200, env=None, heap="6g"):
     """Run a *Rec.tla validator over an ndjson file.
 
@@ -291,6 +294,30 @@ def tlc_validate_records(module, cfg, recfile, nrecs, chunk=500, workers=None, t
     <<"CHECKED", first, last>> for each chunk.  Returns (bad, checked) where bad is
     a list of (index, reason) with 1-based indices into the file.
     """
+    if nrecs > PART:
+        # a very large file is validated in parts of PART records (one TLC run each): parsing and holding millions of
+        # records in one JVM is what runs out of time, not the evaluation
+        bad, total = [], None
+        with open(recfile) as f:
+            lo = 0
+            while lo < nrecs:
+                n = min(PART, nrecs - lo)
+                part = "%s.part%d" % (recfile, lo // PART)
+                with open(part, "w") as g:
+                    for _ in range(n):
+                        g.write(f.readline())
+                b, r = tlc_validate_records(module, cfg, part, n, chunk=chunk, workers=workers, timeout=timeout, env=env, heap=heap)
+                os.unlink(part)
+                bad += [(i + lo, why) for i, why in b]
+                if total is None:
+                    total = r
+                else:
+                    total.generated += r.generated
+                    total.distinct += r.distinct
+                    total.wall += r.wall
+                    total.out = total.out[-20000:] + r.out[-20000:]
+                lo += n
+        return bad, total
     e = {"RECORDS": recfile, "CHUNK": str(chunk)}
     if env:
         e.update(env)
